@@ -59,7 +59,7 @@ def timing_program(rng, nroots=None, depth=0):
 def tick_program(rng):
     """tickers with dyadic periods, bodies shorter / equal / longer than the period, various start times"""
     start = rng.choice([-10, -10, -2.5, 0, 0, 3, 7.5])
-    per = [0, 0.5, 1, 1.5, 2, 2.5, 5]
+    per = [0, 0.5, 1, 1.5, 2, 2.5, 5, -1]
     roots = []
     for _ in range(rng.randint(1, 4)):
         ops = []
